@@ -31,7 +31,7 @@ fn main() {
     }
     install_panic_hook();
     if args[0] == "--selftest" {
-        match hcv::refmodel::bigu::selftest() {
+        match hcv::refmodel::bigu::selftest().and_then(|n| hcv::refmodel::ntt::selftest_fast().map(|m| n + m as u64)) {
             Ok(n) => {
                 println!("refmodel selftest ok ({n} pairs)");
                 std::process::exit(0)
@@ -105,7 +105,7 @@ fn main() {
     };
     let budget_s: u64 = std::env::var("VERIF_BUDGET_S").ok().and_then(|s| s.parse().ok()).unwrap_or(if tier == Tier::Quick { 45 } else { 900 });
     let cfg = RunCfg { id: id.clone(), tier, seed, threads, budget: Duration::from_secs(budget_s), started: Instant::now() };
-    if let Err(e) = hcv::refmodel::bigu::selftest() {
+    if let Err(e) = hcv::refmodel::bigu::selftest().and_then(|_| hcv::refmodel::ntt::selftest_fast()) {
         eprintln!("refmodel selftest FAILED: {e}");
         std::process::exit(2);
     }
